@@ -7,7 +7,7 @@ RULE = ("one server; 5 records (two users, a third sharing the first one's passw
         "sessions (one with a wrong password); server sessions = (request, record, credential id) triples; every response routed "
         "to every pending client session; every finalization to every pending server session (thorough: all routings; quick: a "
         "seeded sample of server sessions). Oracle: acceptance exactly on matched conversations, key agreement, pairwise distinct "
-        "session keys; pending client and server sessions wait in a store (native bytes, serde-bincode, serde-json) between "
+        "session keys; the matched session's request and response with one bit flipped in transit (first / last byte of every field + 3 seeded offsets, bits 0 and 7) never complete on the client; pending client and server sessions wait in a store (native bytes, serde-bincode, serde-json) between "
         "steps. distinct = distinct (suite, op, args)")
 EXHAUSTIVE = {"quick": False, "thorough": True}
 ASSUMPTIONS = ["matched-conversation theorem holds up to explicit collision / freshness events (Bad)"]
@@ -70,6 +70,29 @@ def routing(ctx, sample, shape=0):
         big = ctx.call("srv_login_start", ctx.tape(L.Nh + 64 + L.Nsk + 16), setup, records["u1"][0], clients["c1"][1], C1,
                        b"x" * 65536, idu_of("u1"), IDS)
         ctx.expect(not big.ok, "a session cannot be started under a context that cannot be framed (65536 bytes)")
+    # altered in transit: a request or a response changed by the network in ONE bit was produced by no session, so the login
+    # must not complete on the client - also when the bit sits where an encoding could be tempted to ignore it (first / last
+    # byte of every field: sign and tag bytes, the unused top bit of an X25519 coordinate, the last byte of a nonce)
+    def alterations(msg, offsets):
+        offs = sorted(set(o for o in offsets if 0 <= o < len(msg)) | set(rnd.sample(range(len(msg)), 3)))
+        return [(o, m) for o in offs for m in (0x01, 0x80)]
+    flip = lambda msg, o, m: msg[:o] + bytes([msg[o] ^ m]) + msg[o + 1:]
+    st1, req1, pw1 = clients["c1"]
+    idu1 = idu_of("u1")
+    for (o, m) in alterations(req1, [0, L.Noe - 1, L.Noe, L.Noe + 31, L.Noe + 32, len(req1) - 1]):
+        r = ctx.call("srv_login_start", ctx.tape(L.Nh + 64 + L.Nsk + 16), setup, records["u1"][0], flip(req1, o, m), C1, CTX, idu1, IDS)
+        if r.ok:
+            r2 = ctx.call("login_finish", st1, pw1, r.b(1), CTX, idu1, IDS, "~")
+            ctx.expect(not r2.ok, "client c1 completed on the response to a request that no client session produced "
+                       "(its own request with bit %#x of byte %d of %d flipped in transit)" % (m, o, len(req1)))
+    if ("c1", "u1", C1) in srv:
+        resp1 = srv[("c1", "u1", C1)][1]
+        n = len(resp1)
+        for (o, m) in alterations(resp1, [0, L.Noe - 1, L.Noe, L.Noe + 31, n - L.Nh - L.Npk - 32, n - L.Nh - L.Npk - 1,
+                                          n - L.Nh - L.Npk, n - L.Nh - 1, n - L.Nh, n - 1]):
+            r2 = ctx.call("login_finish", st1, pw1, flip(resp1, o, m), CTX, idu1, IDS, "~")
+            ctx.expect(not r2.ok, "client c1 completed on a response that no server session produced (the response of its own "
+                       "session with bit %#x of byte %d of %d flipped in transit)" % (m, o, n))
     # every response to every pending client
     fins = {}      # (client, server session) -> (ke3, key)
     keys = []
